@@ -23,7 +23,7 @@ Qed.
 
 Theorem possi_any_order name q cl rel rest rest' :
   name <> [] -> forallb namec name = true -> eqc (peek name) 36 = false ->
-  (match q with None => True | Some a => forallb mac (arch_string a) = true /\ parse_arch (arch_string a) = a end) ->
+  (match q with None => True | Some a => forallb mac (arch_string a) = true /\ parse_arch (arch_string a) = a /\ arch_ok (arch_string a) = true end) ->
   clauses_ok (base name q) cl -> tail_ok rest rest' ->
   evOk (fun f => parse_possibility f rel (name ++ qual_text q ++ clauses_text cl ++ rest))
        (rel ++ [result name q cl], rest').
@@ -64,7 +64,7 @@ Proof.
   change (c0 :: n0 ++ qual_text q ++ clauses_text cl ++ rest) with ((c0 :: n0) ++ qual_text q ++ clauses_text cl ++ rest).
   rewrite (possi_loop_name (c0 :: n0) g fresh rel _ Hc). cbn [p_name fresh app].
   destruct q as [a|].
-  - destruct Ha as [Hm Hrt]. destruct g as [|g]; [lia|]. cbn [qual_text app possi_loop peek].
+  - destruct Ha as (Hm&Hrt&Hok). destruct g as [|g]; [lia|]. cbn [qual_text app possi_loop peek].
     change (eqc (ch 58) 58) with true. cbv iota. unfold parse_multiarch. cbn [adv tl].
     assert (Hstop : multiarch_stop (peek (clauses_text cl ++ rest)) = true).
     { destruct cl as [|wc cl'].
@@ -72,7 +72,7 @@ Proof.
         + unfold multiarch_stop. rewrite Hw. now rewrite !orb_true_r.
         + unfold multiarch_stop, stop3 in *. apply orb_true_iff in Hst as [Hst|Hst]; [apply orb_true_iff in Hst as [Hst|Hst]|]; rewrite Hst; cbn; now rewrite ?orb_true_r.
       - pose proof (clauses_head _ _ rest W ltac:(discriminate)) as Hw. unfold multiarch_stop. rewrite Hw. now rewrite !orb_true_r. }
-    rewrite (multiarch_word (arch_string a) [] _ Hm Hstop). cbn [app]. rewrite Hrt.
+    rewrite (multiarch_word (arch_string a) [] _ Hm Hstop). cbn [app]. rewrite (arch_named_ok _ _ Hok), Hrt.
     replace (set_arch (with_name fresh (c0 :: n0)) a) with (base (c0 :: n0) (Some a)) by reflexivity.
     apply H2. lia.
   - cbn [qual_text app]. replace (with_name fresh (c0 :: n0)) with (base (c0 :: n0) None) by reflexivity.
